@@ -281,6 +281,8 @@ struct simcfg {
 				* thread is in the middle of applying a response, and calls rtr_stop() right then */
 	/* fuzzing: raw answer bytes for queries with override AO_RAW, and raw bytes delivered while the client idles */
 	size_t (*rawgen)(struct sim *s, uint8_t *out, size_t cap, uint64_t fuzz_seed, int where);
+	long slow_query; /* > 0: the answer to this query (1-based) arrives one byte per slow_gap seconds; later answers at once */
+	unsigned int slow_gap;
 	long intr_at_byte; /* > 0: on connection intr_conn a receive call is interrupted (TR_INTR) exactly after this many delivered bytes */
 	long intr_conn;
 	uint64_t fuzz_seed;
@@ -288,7 +290,7 @@ struct simcfg {
 	/* outage window (virtual seconds relative to scenario start) for the expiry scenarios */
 	time_t outage_from, outage_until;
 	int outage_dur_class; /* evidence only */
-	int outage_mode; /* 0 open fails, 1 send fails, 2 silence, 3 fatal error report, 4 no-data report, 5 cache reset + truncated reload, 6 cache reset + reload with duplicate */
+	int outage_mode; /* 0 open fails, 1 send fails, 2 silence, 3 fatal error report, 4 no-data report, 5 cache reset + truncated reload, 6 cache reset + reload with duplicate, 7 takes the query and closes without a byte */
 };
 
 struct wire {
@@ -330,6 +332,7 @@ struct sim {
 	long tcalls; /* transport calls so far (open/send/recv) */
 	pid_t fsm_tid; /* kernel id of the thread that made the latest transport call */
 	bool intr_fired;
+	bool slow_started;
 	uint8_t slow_rest[40]; /* second part of an unsolicited PDU that is delivered in two parts (event kinds 8, 9) */
 	size_t slow_rest_len;
 	long slow_conn;
